@@ -25,16 +25,25 @@ Lemma c08_member_facts_of w t : WFin w -> k_ext (gett w t) = false -> c08_member
 Proof.
   intros H Hext. pose proof (c08_wfin_member w t H Hext) as M. unfold wfin_member_b in M.
   repeat (apply andb_true_iff in M; let X := fresh "X" in destruct M as [M X]).
+  (* the conjuncts are picked by their shape, not by their position *)
+  assert (Hc : forallb (fun c => in_range w c && negb (is_ext w c)
+                          && match k_parent (gett w c) with Some p => Nat.eqb p t | None => false end)
+                       (k_children (gett w t)) = true) by assumption.
+  assert (Hp : match k_parent (gett w t) with
+               | Some p => in_range w p && negb (is_ext w p) && memb t (k_children (gett w p))
+               | None => true end = true) by assumption.
+  assert (Ha : negb (memb t (ancestors w (length w) t)) = true) by assumption.
+  assert (Hm : negb (k_milestone (gett w t)) || is_leaf (gett w t) = true) by assumption.
   constructor.
-  - intros c Hc. rewrite forallb_forall in M. specialize (M c Hc).
-    apply andb_true_iff in M. destruct M as [M M3]. apply andb_true_iff in M. destruct M as [_ M2].
+  - intros c Hin. rewrite forallb_forall in Hc. specialize (Hc c Hin).
+    apply andb_true_iff in Hc. destruct Hc as [Hc M3]. apply andb_true_iff in Hc. destruct Hc as [_ M2].
     unfold is_ext in M2. apply negb_true_iff in M2. split; [exact M2|].
     destruct (k_parent (gett w c)) as [p|]; [|discriminate]. apply Nat.eqb_eq in M3. subst. reflexivity.
-  - intros p Hp. rewrite Hp in X8. apply andb_true_iff in X8. destruct X8 as [A B].
+  - intros p Hpp. rewrite Hpp in Hp. apply andb_true_iff in Hp. destruct Hp as [A B].
     apply andb_true_iff in A. destruct A as [_ A]. unfold is_ext in A. apply negb_true_iff in A.
     split; [exact A | apply memb_true; exact B].
-  - apply negb_true_iff in X7. apply memb_false. exact X7.
-  - intros Hm. rewrite Hm in X1. simpl in X1. exact X1.
+  - apply negb_true_iff in Ha. apply memb_false. exact Ha.
+  - intros Hmm. rewrite Hmm in Hm. simpl in Hm. exact Hm.
 Qed.
 
 (* ---------- the hierarchy is finite: every chain of parents ends within length w steps ---------- *)
